@@ -550,8 +550,11 @@ func (o *operation) handle() {
 		switch err := o.readRequestMessage(nil, o.request.Body, &reqMsg); {
 		case errors.Is(err, io.EOF):
 			// okay for the first message: means empty message data
-			// (the body may have ended before the message got a buffer)
-			reqMsg.reset(o.bufferPool, true, false)
+			// (the body may have ended before the message got a buffer).
+			// Like any other message of this request it counts as compressed
+			// if the client declared a compression, so that it is compressed
+			// again for a target whose headers will announce one.
+			reqMsg.reset(o.bufferPool, true, o.client.reqCompression != nil)
 			reqMsg.markReady()
 		case err != nil:
 			o.reportError(err)
